@@ -113,6 +113,42 @@ def _hist(t):
     return f"ok {a0} | {len(outs)} {' '.join(outs)} | {a1} | {same} {eq} {hsh}"
 
 
+_FLOOD = None
+
+
+def _flood():
+    """Registry saturation: construct every triplet over the 16 IUPAC letters (T and U spellings, upper and lower
+    case) and a few hundred refused texts - more distinct constructor arguments than any bounded registry / cache of
+    codons would plausibly hold - before the history of the line is played."""
+    global _FLOOD
+    if _FLOOD is None:
+        import itertools
+        L = "ACGTURYSWKMBDHVN"
+        _FLOOD = ["".join(p) for p in itertools.product(L, repeat=3)]
+        _FLOOD += [x.lower() for x in _FLOOD[::3]]
+        _FLOOD += ["".join(p) for p in itertools.product("XZE*-.0", repeat=3)] + ["AT", "ATGA", "", "A-G"]
+    n = 0
+    for x in _FLOOD:
+        try:
+            Codon(x)
+            n += 1
+        except (ValueError, AlphabetError):
+            pass
+    return n
+
+
+def _revcomp(name, text):
+    text = "" if text == "_" else text
+    try:
+        s = Sequence(text, Alphabet[name], validate_alphabet=False).reverse_complement()
+    except (AlphabetError, KeyError):
+        return "none"
+    out = str(s)
+    if " " in out:
+        raise AssertionError(out)
+    return "ok " + (out if out else "_")
+
+
 def impl_tab_op(line):
     t = [x for x in line.split(" ") if x != ""]
     op = t[0]
@@ -122,6 +158,11 @@ def impl_tab_op(line):
             return _bio(op, t)
         if op == "hist":
             return _hist(t)
+        if op == "fhist":
+            _flood()
+            return _hist(t)
+        if op == "revcomp":
+            return _revcomp(t[1], t[2])
         if op == "translate":
             r = Codon(t[1]).translate(strict=(t[2] == "1"))
             if not (isinstance(r, str) and len(r) == 1):
